@@ -186,6 +186,16 @@ pub fn replay(args: &Args, s: &mut Summary) {
                 text.push_str(l);
                 text.push('\n');
             }
+            if args.opt("prop") == Some("C07") {
+                let d = guarded("c07", || crate::framing::c07_diffs(text.as_bytes()));
+                s.checks += 8;
+                match d {
+                    Err(p) => s.mismatch("panic", json!({"text": text, "panic": p})),
+                    Ok(d) if !d.is_empty() => s.mismatch(&format!("c07:{}", d[0].split('.').next().unwrap_or("")), json!({"text": text, "diffs": d})),
+                    Ok(_) => {}
+                }
+                continue;
+            }
             let label = format!("records replay {text:?}");
             let r = guarded(&label, || {
                 // per-line verdicts through the public parse function of the section's own decoder
